@@ -448,12 +448,21 @@ Qed.
 Lemma ordered_op v o : v_order v = Sorted -> op_safe v o = true -> ordered [] (prog_of_op v o).
 Proof.
   intros Hv Hs. unfold op_safe in Hs. apply andb_true_iff in Hs. destruct Hs as [Hwf Hc].
-  destruct o as [p|ks ao uo|d isnew|d m|d present]; cbn [prog_of_op].
+  destruct o as [p|ks ao uo|ks|d isnew|d m|d present]; cbn [prog_of_op].
   - cbn in Hwf. apply ordered_batch. now apply negb_true_iff.
   - cbn in Hwf. rewrite Hv in Hwf. rewrite !andb_true_iff in Hwf. destruct Hwf as [[[P _] ND] S].
     destruct (v_core v).
     + cbn in Hc. now apply ordered_txn.
     + destruct (memb LCore (part_keys ks)) eqn:M; [reflexivity|]. apply ordered_txn; auto. now rewrite M.
+  - cbn in Hwf. rewrite Hv in Hwf. rewrite !andb_true_iff in Hwf. destruct Hwf as [[Nd NDsm] S].
+    assert (G : negb (memb LCore ks) = true -> ordered [] (map Acq ks ++ map Rel (rev ks))).
+    { intros NC. rewrite negb_true_iff, memb_false in NDsm, NC.
+      apply ordered_acqs; [| intros h x [] |].
+      - apply name_sorted_sorted; [|assumption]. intros h Hh. destruct h; cbn; [tauto | reflexivity | tauto].
+      - rewrite app_nil_r. apply ordered_rels. apply NoDup_rev. now apply nodupb_NoDup. }
+    destruct (v_core v).
+    + cbn in Hc. now apply G.
+    + destruct (memb LCore ks) eqn:M; [reflexivity|]. apply G. rewrite ?M. reflexivity.
   - cbn. split; [intros h []|]. destruct isnew.
     + apply ordered_core_update; [intros h [<-|[]]; reflexivity|]. cbn. auto.
     + cbn. auto.
